@@ -310,6 +310,9 @@ func drawAxis(r *simrt.Rng, name, kind string, idx int) model.AxisDesc {
 	a.Flip = r.Chance(0.35)
 	if r.Chance(0.4) {
 		a.Deadzone = fp([]float64{0, 0.05, 0.1, 0.15, 0.2, 0.25, 1.0 / 3, 0.5, float64(r.Intn(60)) / 100}[r.Intn(9)])
+		if r.Chance(0.03) {
+			a.Deadzone = fp(1.0) // the top of the documented range: the whole travel is deadzone
+		}
 	}
 	switch kind {
 	case "cc":
